@@ -383,6 +383,11 @@ def _gate_shape():
             and all('ircdb.channels.getChannel(channel)' in fns[k] and 'ircdb.channels.setChannel(channel, chan)' in fns[k] for k in ('set', 'unset')) \
             and all('isChannelCapability' not in fns[k] for k in ('add', 'remove', 'set', 'unset'))
     facts.append(('chancap-args-qualified', ok_q))
+    # Channel._voice: the weaker #chan,voice only when the caller names himself alone (or nobody)
+    vf = ast.unparse(find_func(cht, '_voice', cls='Channel'))
+    facts.append(('voice-self-only', "if len(nicks) == 1 and msg.nick in nicks:\n            capability = 'voice'\n        else:\n            capability = 'op'" in vf
+                  and "nicks = [msg.nick]\n        capability = 'voice'" in vf
+                  and 'capability = ircdb.makeChannelCapability(channel, capability)\n    if ircdb.checkCapability(msg.prefix, capability):' in vf))
     # Owner.doPrivmsg: ignore test precedes tokenising / dispatch
     ot = parse('plugins/Owner/plugin.py')
     d = find_func(ot, 'doPrivmsg', cls='Owner')
